@@ -21,8 +21,9 @@ from mirsym.vals import *   # noqa
 from mirsym.engine import Unsupported, Inconclusive, BoundExceeded, PurityViolation, PanicEx
 
 VERIF = artifacts.VERIF
-EVIDENCE_DIR = os.path.join(VERIF, 'evidence')
-REPLAY_DIR = os.path.join(VERIF, 'replays')
+OUT = os.environ.get('TAU_VERIF_OUT', VERIF)       # seed experiments write elsewhere
+EVIDENCE_DIR = os.path.join(OUT, 'evidence')
+REPLAY_DIR = os.path.join(OUT, 'replays')
 KNOWN_FILE = os.path.join(VERIF, 'known_findings.txt')
 
 SOLVER_RESULT = ['True', 'False', 'Missing']
